@@ -65,6 +65,11 @@ def rule(rid: str, floor: int = 1, tier: str = "quick", witness_min: int = 0):
     return deco
 
 
+def _attr(file, line, where):
+    from .spans import attribute
+    return attribute(file, line, where)
+
+
 class Collector:
     """Passed to a rule; collects obligations and assumptions."""
     def __init__(self, rid: str):
@@ -74,17 +79,17 @@ class Collector:
         self.stats: Dict[str, int] = {}
 
     def ok(self, where: str, file: str, line: int, construct: str, msg: str = "", **extra) -> Ob:
-        o = Ob(self.rid, where, file, line, construct, OK, msg, extra)
+        o = Ob(self.rid, _attr(file, line, where), file, line, construct, OK, msg, extra)
         self.obs.append(o)
         return o
 
     def benign(self, where, file, line, construct, msg="", **extra) -> Ob:
-        o = Ob(self.rid, where, file, line, construct, BENIGN, msg, extra)
+        o = Ob(self.rid, _attr(file, line, where), file, line, construct, BENIGN, msg, extra)
         self.obs.append(o)
         return o
 
     def bad(self, where, file, line, construct, msg, **extra) -> Ob:
-        o = Ob(self.rid, where, file, line, construct, VIOLATED, msg, extra)
+        o = Ob(self.rid, _attr(file, line, where), file, line, construct, VIOLATED, msg, extra)
         self.obs.append(o)
         return o
 
